@@ -112,6 +112,15 @@ func (s *Sync) namespacedClient(peerInfo peer.AddrInfo, rtOpts ...libp2phttp.Rou
 	return s.clientHost.NamespacedClient(ProtocolID, peerInfo, rtOpts...)
 }
 
+// ForgetPeer discards the protocol information that the libp2phttp host
+// remembers for the peer, so that the next Syncer created for the peer asks it
+// again. What a peer answered once may have been damaged on the way.
+func (s *Sync) ForgetPeer(peerID peer.ID) {
+	s.clientHostMutex.Lock()
+	s.clientHost.RemovePeerMetadata(peerID)
+	s.clientHostMutex.Unlock()
+}
+
 // NewSyncer creates a new Syncer to use for a single sync operation against a
 // peer. A value for peerInfo.ID is optional for the HTTP transport.
 func (s *Sync) NewSyncer(peerInfo peer.AddrInfo) (*Syncer, error) {
